@@ -92,10 +92,19 @@ impl Prop for C06 {
                 ops.push(AppOp::Handshake(isi));
             }
         }
+        // the select!-loop pattern (tokio): a read dropped while its reply is half written must
+        // not let the next write tear that reply
+        let cancels = imp == Imp::Tokio && !fault_free && rng.chance(1, 4);
         for _ in 0..n_w {
             while reads_left > 0 && rng.chance(1, 3) {
-                ops.push(AppOp::Read);
-                reads_left -= 1;
+                if cancels && rng.chance(1, 2) {
+                    ops.push(AppOp::ReadCancel {
+                        polls: rng.below(4) as u32,
+                    });
+                } else {
+                    ops.push(AppOp::Read);
+                    reads_left -= 1;
+                }
             }
             ops.push(AppOp::Write(gen::gen_out_frame(rng, mode, stats)));
         }
@@ -139,6 +148,9 @@ impl Prop for C06 {
     fn shrink(&self, sc: &StreamScenario) -> Vec<StreamScenario> {
         shrink_stream(sc)
     }
+    fn preludes(&self, sc: &StreamScenario) -> Vec<StreamScenario> {
+        crate::streamprop::stream_preludes(sc)
+    }
     fn rule(&self) -> String {
         "Each case is one session in which the application calls write(p) for a sequence of encoder-accepted packets (all kinds and sizes, never a TINY_NONE/0 so that library-initiated keep-alive replies stay attributable), interleaved with reads of inbound keep-alives; the write half of the scripted transport accepts k in 1..=offered bytes per call (biased to 1 and to large k) or answers Pending. Oracle: every byte the peer receives must continue either the frame of the write in flight or a keep-alive reply, frames never interleave, and a write that returns Ok has its whole frame on the wire. Non-trivial = at least one short write or Pending fired; distinct by trace signature.".into()
     }
@@ -162,6 +174,7 @@ impl Prop for C06 {
             "write_ge_200_bytes",
             "blocking_runs",
             "tokio_runs",
+            "read_cancelled",
         ]
     }
 }
